@@ -47,6 +47,13 @@ Theorem C20_forward_as_tuple_aliases : forall a, is_cat a -> forward_as_tuple_m 
 Proof. exact forward_as_tuple_agrees. Qed.
 Print Assumptions C20_forward_as_tuple_aliases.
 
+(* construction of the call wrappers: bind_front(f, args...) for ANY number of bound arguments and not_fn(f) copy the callable
+   and every bound argument from an lvalue / const argument and move them from a non-const rvalue, once each *)
+Theorem C20_wrapper_construction_transfer : forall fc bound, is_cat fc -> Forall is_cat bound ->
+  bindfront_ctor_m fc bound = wrapper_ctor_spec fc bound /\ notfn_ctor_m fc = init_spec (mkty false RNone) fc.
+Proof. exact (fun fc bound Hf Hb => conj (bindfront_ctor_agrees fc bound Hf Hb) (notfn_ctor_agrees fc Hf)). Qed.
+Print Assumptions C20_wrapper_construction_transfer.
+
 (* etl::forward overload by overload (parameter binding, static_assert, static_cast<T&&>, declared return type) computes
    the rule [forward_e] that every other model function uses for etl::forward<T>(x) *)
 Theorem C20_forward_overloads : forall T e, is_cat e -> forward_m T e = forward_e T e.
